@@ -568,6 +568,8 @@ func allTrue(n int) []bool {
 	return c
 }
 
+func itoa(i int) string { return strconv.Itoa(i) }
+
 func must(err error, what string) {
 	if err != nil {
 		vnd.Assert(false, what+" must succeed")
